@@ -120,6 +120,14 @@ def run(tier, seed):
     os.makedirs(os.path.join(fdir, "util"))
     for nm, src in A_FILES.items():
         open(os.path.join(fdir, "util", nm + ".sld"), "w").write(src)
+    # a program FILE for A whose top-level forms define macros named like B's procedures
+    open(os.path.join(fdir, "macros.scm"), "w").write("(define-syntax twice (syntax-rules () ((twice e) 'a-file-macro)))\n(define-syntax wrap (syntax-rules () ((wrap e) 'a-file-macro)))\n"
+                                                      "(define-syntax local-mac (syntax-rules () ((local-mac e) 'a-file-macro)))\n(define-syntax id (syntax-rules () ((id e) 'a-file-macro)))\n(twice 1)\n")
+    # B's own program directory: a library with the NAME of A's file library and another definition
+    fdir2 = tempfile.mkdtemp(prefix="c19b-", dir=core.TMP)
+    os.makedirs(os.path.join(fdir2, "util"))
+    for nm in ("filelib", "filelib2"):
+        open(os.path.join(fdir2, "util", nm + ".sld"), "w").write("(define-library (util %s) (import (scheme base)) (export finc fdec) (begin (define (finc x) (+ x 100)) (define (fdec x) (- x 100))))\n" % nm)
     jobs, meta = [], []
     for pi, (A, B) in enumerate(pairs):
         # instance A (and the instances created later) sometimes carry registered library sources with macros in them
@@ -130,7 +138,13 @@ def run(tier, seed):
             A = ["(import (util %s))" % ("filelib" if pi % 2 else "filelib2"), "(finc 1)" if pi % 2 else "(fdec 1)"] + A
             pairs[pi] = (A, B)
         bspec = dict(spec, libs=B_LIBS) if pi % 4 in (1, 2) else spec
-        bsteps = lambda it: ([{"it": it, "import": [{"lib": ["util", "counter"]}, {"lib": ["util", "wrap"]}], "fresh_env": False}, {"it": it, "src": "(list (inc 5) limit (w 1))"}] if "libs" in bspec else []) \
+        b_file_lib = (pi % 3 == 0 and pi % 4 == 0)
+        if b_file_lib:
+            bspec = dict(bspec, progdir=fdir2)
+        if pi % 5 == 1:
+            A = A[:1] + [("file", os.path.join(fdir, "macros.scm"))] + A[1:]
+            pairs[pi] = (A, B)
+        bsteps = lambda it: ([{"it": it, "src": "(import (util filelib) (util filelib2))"}, {"it": it, "src": "(list (finc 1) (fdec 1))"}] if b_file_lib else []) + ([{"it": it, "import": [{"lib": ["util", "counter"]}, {"lib": ["util", "wrap"]}], "fresh_env": False}, {"it": it, "src": "(list (inc 5) limit (w 1))"}] if "libs" in bspec else []) \
             + [{"it": it, "src": t} for t in B]
         jobs.append({"id": "alone-%d" % pi, "interps": [bspec], "steps": bsteps(0), "fuel": 100000}); meta.append(("alone", pi, None))
         for k in range(nint):
@@ -144,7 +158,7 @@ def run(tier, seed):
             for w in order:
                 if w == 0:
                     steps.append({"syntax_table": True})
-                    steps.append({"it": 0, "src": A[ia]}); ia += 1
+                    steps.append({"it": 0, "src": A[ia]} if isinstance(A[ia], str) else {"it": 0, "file": A[ia][1]}); ia += 1
                     steps.append({"syntax_table": True})
                     steps.append({"new": aspec}); extra += 1
                 else:
@@ -173,9 +187,9 @@ def run(tier, seed):
         # the bundled macro table must not change; new instances must come up
         changed_at = None
         for i, s in enumerate(job["steps"]):
-            if "syntax_table" in s and i + 2 < len(st) and "syntax_table" in job["steps"][i + 2] and "src" in job["steps"][i + 1]:
+            if "syntax_table" in s and i + 2 < len(st) and "syntax_table" in job["steps"][i + 2] and ("src" in job["steps"][i + 1] or "file" in job["steps"][i + 1]):
                 if st[i].get("ok") != st[i + 2].get("ok") and changed_at is None:
-                    changed_at = job["steps"][i + 1]["src"]
+                    changed_at = job["steps"][i + 1].get("src") or ("file " + job["steps"][i + 1]["file"])
             if "new" in s:
                 ctx.count("instances_created")
                 if "ok" not in st[i]:
@@ -200,10 +214,10 @@ def run(tier, seed):
             ok = False
         if ok:
             ctx.count("interleavings_isolated")
-            ctx.nontriv(json.dumps([sorted(set(a for a in A if a in HOSTILE)), " ".join(skeleton_text(b) for b in B)[:400]]))
+            ctx.nontriv(json.dumps([sorted(set(a for a in A if isinstance(a, str) and a in HOSTILE)), " ".join(skeleton_text(b) for b in B)[:400]]))
     ctx.legs.append("dev")
     many_instances(ctx)
-    shutil.rmtree(fdir, ignore_errors=True)
+    shutil.rmtree(fdir, ignore_errors=True); shutil.rmtree(fdir2, ignore_errors=True)
     ctx.sample({"A": pairs[0][0][:12], "B": pairs[0][1][:12]})
     return ctx.finish(min_evals=100, min_nontrivial=50)
 
